@@ -2,7 +2,9 @@
 // Monitors: ThreadSanitizer (tsan build), read-only (mprotect'ed) modules/tables (build tag "ro"),
 // per-thread outputs compared bit for bit with a sequential re-run of the same calls, and an
 // accounting of the call overlaps that were actually observed.
+#define _GNU_SOURCE
 #include <pthread.h>
+#include <sched.h>
 #include <time.h>
 
 #include "ops.h"
@@ -26,6 +28,7 @@ typedef struct {
   uint64_t jitter;
   env_t** envs;
   pthread_barrier_t* bar;
+  int sched;  // 0 free-running on all cores, 1 all threads pinned to two cores (interleaving by preemption), 2 yield after every call
 } thr_t;
 
 static inline uint64_t now_ns(void) {
@@ -35,6 +38,13 @@ static inline uint64_t now_ns(void) {
 }
 static void* worker(void* arg) {
   thr_t* t = arg;
+  if (t->sched == 1) {
+    cpu_set_t cs;
+    CPU_ZERO(&cs);
+    CPU_SET((2 * G.part) % 16, &cs);  // a different pair per harness process
+    CPU_SET((2 * G.part + 1) % 16, &cs);
+    pthread_setaffinity_np(pthread_self(), sizeof cs, &cs);
+  }
   pthread_barrier_wait(t->bar);
   // start jitter: outside any library code (the library has no critical sections to place it between)
   uint64_t x = t->jitter;
@@ -46,6 +56,7 @@ static void* worker(void* arg) {
     c->t0 = now_ns();
     op_exec(&OPS[c->op], t->envs[c->envi], c->seed, c->prefill, c->mis, MON_CANARY | MON_SNAPSHOT, &r);
     c->t1 = now_ns();
+    if (t->sched == 2) sched_yield();
     c->hash = r.skipped ? 0 : r.out_hash;
     c->bad = r.canary_bad | (r.src_modified << 1);
     snprintf(c->msg, sizeof c->msg, "%s", r.msg);
@@ -68,7 +79,9 @@ static const uint64_t DIMS[] = {4, 16, 64, 2048, 8, 256};
 
 static void conc_case(int warm, unsigned dimsel, int T, int rounds, unsigned rep) {
   char key[96];
-  snprintf(key, sizeof key, "concurrent:%s|T=%d", warm ? "simple-API(warmed-up)" : "module+table-API(cold)", T);
+  const int sched = (int)(rep % 3);
+  static const char* sn[] = {"free", "pinned-2cpu", "yield"};
+  snprintf(key, sizeof key, "concurrent:%s|T=%d,%s", warm ? "simple-API(warmed-up)" : "module+table-API(cold)", T, sn[sched]);
   const uint64_t N1 = DIMS[dimsel % ARRAY_LEN(DIMS)], N2 = DIMS[(dimsel + 1 + rep) % ARRAY_LEN(DIMS)];
   if (!case_begin(key, "dims=%" PRIu64 ",%" PRIu64 " threads=%d rounds=%d rep=%u", N1, N2, T, rounds, rep)) return;
   rng_t* r = crng();
@@ -109,6 +122,7 @@ static void conc_case(int warm, unsigned dimsel, int T, int rounds, unsigned rep
     th[t].tid = t;
     th[t].envs = envs;
     th[t].bar = &bar;
+    th[t].sched = sched;
     th[t].jitter = rng_u64(r) & 0x3FFF;
     th[t].ncalls = per;
     th[t].calls = calloc((size_t)per, sizeof(call_t));
@@ -178,6 +192,7 @@ static void conc_case(int warm, unsigned dimsel, int T, int rounds, unsigned rep
     if (op_overlapped[ops[i]]) distinct_add("entry_points_observed_concurrently", hash_bytes(OPS[ops[i]].name, strlen(OPS[ops[i]].name), 1));
   }
   cnt("concurrent_calls", ncalls);
+  cntf("schedule:%s", 1, sn[sched]);
   cnt("overlapping_call_pairs", overlaps);
   cnt("first_call_overlaps", (uint64_t)first_overlap);
   if (tsan_reports_in_case) {
